@@ -11,9 +11,9 @@ let mode_life _args =
     | [cfg; seq] ->
       let p = (cfg = "plain" || cfg = "both") and t = (cfg = "tls" || cfg = "both") in
       let ops = List.filter_map (fun ch -> match ch with
-        | 'S' -> Some OStart | 'X' -> Some OStop | 'R' -> Some ORestart | 'c' -> Some OPlain | 't' -> Some OTLS | 'd' -> Some ODisc | _ -> None)
+        | 'S' -> Some OStart | 'X' -> Some OStop | 'R' -> Some ORestart | 'c' -> Some OPlain | 't' -> Some OTLS | 'd' -> Some ODisc | 'j' -> Some OReject | 'h' -> Some OHsFail | _ -> None)
         (List.init (String.length seq) (String.get seq)) in
-      let chars = List.filter (fun ch -> String.contains "SXRctd" ch) (List.init (String.length seq) (String.get seq)) in
+      let chars = List.filter (fun ch -> String.contains "SXRctdjh" ch) (List.init (String.length seq) (String.get seq)) in
       let obs = life_model p t ops in
       let txt = List.map2 (fun ch o -> match o with
         | ObsRet b -> Printf.sprintf "%c:%s" ch (if b then "true" else "false")
